@@ -1057,7 +1057,7 @@ theorem advanceIter_node (pj : PJ) (i d : Iter) (lo : Nat) (v : LVal) (g : Gap p
   rw [bump_to i lo ha hlo]
   simp only [Res.bind_ok]
   rw [advanceIterLoop_gap pj i g (by omega), advanceIterLoop_live pj i hw (by rw [ht]; exact tagOfL_ne_nop v) (by omega)]
-  simp only [Res.bind_ok]
+  simp only [Res.bind_ok, Bool.not_true, Bool.false_eq_true, if_false]
   obtain ⟨c1, _⟩ := calcNext_of pj v hok { i with off := v.pos + 1, cur := payloadOf w, t := tagOf w } w hw rfl rfl rfl
   rw [c1]
   obtain ⟨_, c2⟩ := calcNext_of pj v hok
